@@ -1,6 +1,98 @@
-"""sidecar contracts (see tools/CONTRACTS_GUIDE.md)"""
+"""P_acc -- the remaining accumulators of C09 (documented aggregate, reset() equals a new element) and C04 (a yielded
+context is a deep copy made for that very yield).  Sidecar contracts of lena/math/elements.py (DSum, VarianceMeanCount,
+Vectorize), lena/structures/histogram.py (Histogram element), lena/flow/elements.py (StoreFilled.compute),
+lena/flow/group_by.py (GroupBy).  Sum / Mean / Count / StoreFilled.fill are in C09.py.
+
+Numbers are mathematical reals (DESIGN 2.4): a Decimal is the real it denotes, so "DSum is exact" reads
+`_total == old(_total) + data` and rests on the library contract of decimal.Context.add (pyvc/lib_acc.py, tier A)."""
 from pyvc.contracts import Contract, LoopSpec, ClassSpec
+from pyvc.verify import Lemma
+
+ME = "lena/math/elements.py"
+FE = "lena/flow/elements.py"
+HI = "lena/structures/histogram.py"
+GB = "lena/flow/group_by.py"
+
+PAIR = "Tuple[Real,Dict]"
+
+
+# ---------------------------------------------------------------------------------------------- lemma builder
+def reset_equals_new(cls, reset, observe, init_args=()):
+    """lemma builder: `reset` on an ARBITRARY element of the class (object invariant assumed) leaves every observable
+    place (spec expressions over `self`) equal to the one of a newly constructed element (default arguments).
+    `observe` lists the places fill / compute depend on; configuration fields that no method changes are not compared."""
+    from pyvc.calls import apply_contract, instantiate, eval_spec
+    from pyvc.interp import VC, Unsupported
+    from pyvc.smt import FALSE
+    from pyvc.sym import Fun
+
+    def build(ip, st):
+        cs = ip.contracts.classes[cls]
+        a = ip.make("Self[%s]" % cls, "a", st)
+        for inv in cs.invariant:
+            st.assume(eval_spec(ip, st, {"self": a}, inv))
+        ip.entry = st.copy()
+        ip.oldst = ip.entry
+        k = ip.contracts.find_method(cls, reset)
+        if k is None:
+            raise Unsupported("no contract for %s.%s" % (cls, reset))
+        s1 = apply_contract(ip, st, k, [a], {})[0][0]
+        s2, b = instantiate(ip, s1, Fun("class", name=cls, mod=None), list(init_args), {})[0]
+        for e in observe:
+            ea, eb = e.replace("self", "a_"), e.replace("self", "b_")
+            ip.emit("lemma", "reset-equals-new-element: %s" % e, s2,
+                    eval_spec(ip, s2, {"a_": a, "b_": b}, "%s == %s" % (ea, eb)))
+        ip.vcs.append(VC("cover requires", "cover", list(s2.pc), FALSE, ""))
+    return build
 
 
 def register(ix):
-    pass
+    register_dsum(ix)
+
+
+# ---------------------------------------------------------------------------------------------- DSum
+def register_dsum(ix):
+    """`Calculate an accurate floating point sum using decimals`: the total is the exact sum of the filled values.  The fill
+    loop depends on the decimal context trapping Inexact (otherwise Context.add silently rounds): that is the object
+    invariant, so no method may replace or re-configure self._dcontext."""
+    F = {"_total": "Dec", "_dcontext": "Inst[DecimalContext]", "_cur_context": "Dict"}
+    ix.add_class(ClassSpec("DSum", ME, fields=F, invariant=["isdict(self._cur_context)", "self._dcontext.traps_inexact"]))
+    ix.add_class(ClassSpec("DSum0", ME, fields={}, alias_of="DSum"))
+    ix.add(Contract(ME, "DSum.__init__", props=["C09"],
+                    params={"self": "Self[DSum0]", "total": "Real"}, defaults={"total": 0},
+                    ensures=["self._total == total", "self._cur_context == emptydict()", "self._dcontext.traps_inexact"],
+                    modifies=["self._total", "self._dcontext", "self._cur_context"]))
+    # the precision loop: the total is untouched until an addition was exact; only the precision of the context grows
+    LOOP = {0: LoopSpec(invariant=["self._total == old(self._total)", "self._dcontext is old(self._dcontext)",
+                                   "self._dcontext.traps_inexact", "self._dcontext.prec >= old(self._dcontext.prec)"])}
+    FRAME = ["self._total", "self._cur_context", "self._dcontext.prec"]
+    ix.add(Contract(
+        ME, "DSum.fill", props=["C09"],
+        cases=[
+            Contract(ME, "DSum.fill", name="DSum.fill[(data, context)]",
+                     params={"self": "Self[DSum]", "value": PAIR}, requires=["isdict(value[1])"], loops=LOOP,
+                     ensures=["self._total == old(self._total) + value[0]", "self._cur_context is value[1]"],
+                     modifies=FRAME),
+            Contract(ME, "DSum.fill", name="DSum.fill[bare data]",
+                     params={"self": "Self[DSum]", "value": "Real"}, loops=LOOP,
+                     ensures=["self._total == old(self._total) + value", "self._cur_context == emptydict()"],
+                     modifies=FRAME),
+        ]))
+    ix.add(Contract(
+        ME, "DSum.compute", props=["C09", "C04"],
+        params={"self": "Self[DSum]"}, generator=True, yields="Any",
+        at_yield=["self._cur_context implies is_deep_copy(yielded[1]) and is_fresh(yielded[1])"],
+        ensures=["len(out) == 1",
+                 "not self._cur_context implies out[0] == self._total",
+                 "self._cur_context implies out[0][0] == self._total and out[0][1] == self._cur_context"]))
+    ix.add(Contract(ME, "DSum.reset", props=["C09"],
+                    params={"self": "Self[DSum]"},
+                    # `Reset the sum to 0.  Context is reset to {}` -- and nothing else: the decimal context stays
+                    ensures=["self._total == 0", "self._cur_context == emptydict()",
+                             "self._dcontext is old(self._dcontext)", "self._dcontext.traps_inexact"],
+                    modifies=["self._total", "self._cur_context"]))
+    ix.lemmas.append(Lemma(
+        "DSum: reset() equals a newly constructed element", ME, ["C09"],
+        reset_equals_new("DSum", "reset", ["self._total", "self._cur_context", "self._dcontext.traps_inexact"]),
+        notes="observable state: the total, the current context and the Inexact trap of the decimal context (with the trap "
+              "set every addition is exact whatever precision earlier fills left behind, so `prec` is not observable)"))
